@@ -13,6 +13,9 @@ import (
 	abci "github.com/cometbft/cometbft/abci/types"
 	cmtproto "github.com/cometbft/cometbft/proto/tendermint/types"
 	sdk "github.com/cosmos/cosmos-sdk/types"
+	authtypes "github.com/cosmos/cosmos-sdk/x/auth/types"
+
+	elysapp "github.com/elys-network/elys/app"
 )
 
 // ---------------------------------------------------------------------------
@@ -110,6 +113,7 @@ type Sim struct {
 	// cached per block
 	ctxCache *sdk.Context
 	snap     *Snap
+	modNames map[string]string
 	blockIdx int
 	nonce    uint64
 	halted   bool
@@ -613,16 +617,15 @@ func diffResults(a, b *abci.ResponseFinalizeBlock) string {
 	}
 	for i := range a.TxResults {
 		x, y := a.TxResults[i], b.TxResults[i]
-		if x.Code != y.Code || x.GasUsed != y.GasUsed || string(x.Data) != string(y.Data) || x.Log != y.Log {
+		// Log and Info are excluded: ABCI declares them non-deterministic (panic logs carry stack addresses)
+		if x.Code != y.Code || x.Codespace != y.Codespace || x.GasUsed != y.GasUsed || x.GasWanted != y.GasWanted || string(x.Data) != string(y.Data) {
 			fmt.Fprintf(&sb, "\n  tx %d: code %d/%d gas %d/%d log %q / %q", i, x.Code, y.Code, x.GasUsed, y.GasUsed, truncate(x.Log, 200), truncate(y.Log, 200))
 		}
 		if ex, ey := eventsString(x.Events), eventsString(y.Events); ex != ey {
 			fmt.Fprintf(&sb, "\n  tx %d: events differ", i)
 		}
 	}
-	if ex, ey := eventsString(a.Events), eventsString(b.Events); ex != ey {
-		fmt.Fprintf(&sb, "\n  block events differ")
-	}
+	// begin/end-block events are not transaction results and are not compared (the property speaks of app hash and tx results)
 	if len(a.ValidatorUpdates) != len(b.ValidatorUpdates) {
 		fmt.Fprintf(&sb, "\n  validator updates differ")
 	}
@@ -657,4 +660,21 @@ func (s *Sim) Run() {
 			}()
 		}
 	}
+}
+
+
+// moduleName maps a module account address to its name ("" if not a module account).
+func (s *Sim) moduleName(addr string) string {
+	if s.modNames == nil {
+		s.modNames = map[string]string{}
+		for name := range elysapp.GetMaccPerms() {
+			s.modNames[authtypes.NewModuleAddress(name).String()] = name
+		}
+		for _, name := range []string{"perpetual", "leveragelp", "tradeshield", "oracle", "estaking", "tier", "accountedpool", "assetprofile", "tokenomics", "parameter", "epochs", "transferhook"} {
+			if _, ok := s.modNames[authtypes.NewModuleAddress(name).String()]; !ok {
+				s.modNames[authtypes.NewModuleAddress(name).String()] = name
+			}
+		}
+	}
+	return s.modNames[addr]
 }
